@@ -43,6 +43,9 @@ class Insert(ASTNode):
     def to_value(self, val):
         if isinstance(val, ASTNode) :
             return val.to_string()
+        if isinstance(val, str):
+            # repr() is a Python literal, not an SQL one
+            return Constant(val).to_string()
         return repr(val)
 
     def to_tree(self, *args, level=0, **kwargs):
